@@ -46,8 +46,26 @@ def analyse(rows, k):
 
 @st.composite
 def graph_cases(draw, tier):
-    source = draw(st.sampled_from(["arcs", "arcs", "generated", "dense", "dense_ball"]))
-    if source == "dense_ball":
+    source = draw(st.sampled_from(["arcs", "arcs", "generated", "dense", "dense_ball", "sub_alphabet"]))
+    warmup = None
+    if source == "sub_alphabet":
+        # the de Bruijn graph over a 2- or 3-letter sub-alphabet (|S|-regular, strongly connected, aperiodic), judged
+        # right AFTER a call on the graph over other letters of the same order: nothing may carry over between calls
+        k = draw(st.sampled_from([1, 1, 2, 2, 3]))
+        table = o.succ_table(k)
+        letters = draw(st.sampled_from([[0, 1], [2, 3], [0, 3], [1, 2], [0, 2], [1, 3], [0, 1, 2], [1, 2, 3]]))
+        others = draw(st.sampled_from([[j for j in range(4) if j not in letters], letters[::-1],
+                                       [j for j in range(4) if j not in letters] + letters[:1]]))
+
+        def over(alphabet):
+            rows = []
+            for v in range(4 ** k):
+                digits = [(v >> (2 * i)) & 3 for i in range(k)]
+                rows.append(sum(1 << j for j in alphabet) if all(d in alphabet for d in digits) else 0)
+            return rows
+        graph = {"k": k, "rows": over(letters)}
+        warmup = over(others)
+    elif source == "dense_ball":
         # a pocket of maximum-out-degree vertices (everything within 4..6 steps of a root keeps d arcs) inside a
         # thinner graph: the all-ones start sees the estimate d for several steps before the thin part is felt
         k = draw(st.sampled_from([3, 3, 4]))
@@ -79,9 +97,12 @@ def graph_cases(draw, tier):
         if source == "dense":
             rng = random.Random(draw(st.integers(0, 2 ** 32 - 1)))
             graph = dict(graph, rows=[r | (1 << rng.randrange(4)) | (1 << rng.randrange(4)) for r in graph["rows"]])
-    return {"graph": graph, "repeats": draw(st.integers(2, 10)), "np_seed": draw(st.integers(0, 2 ** 32 - 1)),
+    case = {"graph": graph, "repeats": draw(st.integers(2, 10)), "np_seed": draw(st.integers(0, 2 ** 32 - 1)),
             "verbose": draw(st.sampled_from([False, False, False, True])),
             "layout": draw(st.sampled_from([None, None, None, "F", "strided", "int32", "readonly"]))}
+    if warmup is not None:
+        case.update(warmup=warmup, repeats=draw(st.sampled_from([2, 2, 3, 4])))
+    return case
 
 
 def evaluate_graph(case):
@@ -94,6 +115,13 @@ def evaluate_graph(case):
     info = analyse(rows, k)
     labels = ["k=%d" % k, info["reason"]] + (["layout:" + case["layout"]] if case.get("layout") else [])
     results = {}
+    if case.get("warmup"):
+        # an earlier call on another graph of the same order (its own result is not judged here)
+        numpy.random.seed(case["np_seed"] ^ 0x5A5A)
+        lib_call(dsw.approximate_capacity, _twice=False, accessor=gens.accessor_of({"k": k, "rows": case["warmup"]}),
+                 repeats=2)
+        acc = gens.accessor_of(graph, case.get("layout"))  # the pooled buffer now holds the judged graph again
+        labels.append("after_a_call_on_another_graph")
     degree_list = [o.out_degree(rows, v) for v in range(len(rows)) if rows[v]]
     if info["admissible"] and degree_list and k >= 3 and max(degree_list) < 4 and \
             sum(1 for x in degree_list if x == max(degree_list)) < len(degree_list):
@@ -328,7 +356,8 @@ SUBCHECKS = [
                   "arc-less graph) and no repeat may run more than maximum_iteration + 2 steps. Non-trivial: some "
                   "repeat ran out of its iteration budget (the median fallback decided the result)."),
     SubCheck("spectral_radius", evaluate_graph, strategy=graph_cases, examples=(1600, 24000), shards=(16, 16),
-             floors={"admissible": 250, "steps>5": 120, "arc_less": 3, "admissible_mixed_degrees_k>=3": 100}, rule=RULE,
+             floors={"admissible": 250, "steps>5": 120, "arc_less": 3, "admissible_mixed_degrees_k>=3": 100,
+                     "after_a_call_on_another_graph": 150}, rule=RULE,
              timeout=120.0),
     SubCheck("regular_graphs", evaluate_regular, strategy=regular_cases, examples=(600, 6000), shards=(8, 16),
              floors={"with_dead_arcs": 100, "d=3": 50, "d=2": 50}, rule=RULE),
